@@ -167,6 +167,136 @@ theorem dataColumns_modelTable (m : Store L α) (s i incl : Bool) (h : NamesOk m
   cases s <;> cases i <;> simp [List.filter_append, hf] <;>
     (intro a ha; exact ⟨fun e => hs (e ▸ ha), fun e => hi (e ▸ ha)⟩)
 
+/-! ## Name-dependent access: the exported column of a variable is read from ITS storage key
+
+`modelTable` / `containerTable` look cells up by NAME (`m.data k` = `model[k]`), never by storage key, and every
+theorem above is stated for opaque names: a model whose variables are called `Y`, `_Y`, `size` is covered like any
+other (see the `example`s).  What the by-name store hides is WHERE `model[k]` reads: `__dict__['_' + k]`.  The
+theorems below tie the exported column to that entry of the instance `__dict__` and to no other, for every name. -/
+
+/-- `'_' + a = '_' + b` only for `a = b`: two variables never share a storage key. -/
+theorem storageKey_injective (a b : String) (h : storageKey a = storageKey b) : a = b := by
+  unfold storageKey at h
+  exact (String.append_right_inj "_").mp h
+
+/-- A storage key is never the name it stores (so `Y`'s entry `_Y` is not `_Y`'s entry `__Y`). -/
+theorem storageKey_ne_self (a : String) : storageKey a ≠ a := by
+  intro h
+  have := congrArg String.length h
+  simp [storageKey, String.length_append] at this
+
+theorem getItem_of_mem (o : Obj L α) (k : String) (hk : k ∈ o.index) :
+    getItem o k = dictGet o.dict (storageKey k) := by
+  simp [getItem, hk]
+
+/-- **export_reads_own_series.**  For every instance (any `__dict__`, any names — also when one variable's name is the
+    storage key of another, `_Y` next to `Y`, or the name of a class member) and every exported variable `k`: the
+    column labelled `k` is the `__dict__` entry under `storageKey k`; and if the entries of `__dict__` hold pairwise
+    different series (`hdist`), it is the entry of NO other key — in particular not the entry under `k` itself and
+    not the series of any other variable `k'`. -/
+theorem export_reads_own_series (o : Obj L α) (s i incl : Bool) (h : NamesOk o.names)
+    (hsub : ∀ k ∈ o.names, k ∈ o.index) (k : String) (hk : k ∈ exportNames o.names incl) :
+    dictGet (modelTable o.toStore s i incl).cols k = some ((dictGet o.dict (storageKey k)).getD []) ∧
+    (∀ v, dictGet o.dict (storageKey k) = some v →
+      (∀ a b va vb, dictGet o.dict a = some va → dictGet o.dict b = some vb → va = vb → a = b) →
+      ∀ key v', dictGet o.dict key = some v' → dictGet (modelTable o.toStore s i incl).cols k = some v' →
+        key = storageKey k ∧ key ≠ k ∧ ∀ k', k' ≠ k → key ≠ storageKey k') := by
+  have hki : k ∈ o.index := hsub k (exportNames_sub _ _ _ hk)
+  have hcell : dictGet (modelTable o.toStore s i incl).cols k = some ((dictGet o.dict (storageKey k)).getD []) := by
+    have := dataframe_cells o.toStore s i incl h k hk
+    rw [this]
+    simp [Obj.toStore, getItem_of_mem o k hki]
+  refine ⟨hcell, ?_⟩
+  intro v hv hdist key v' hkey hcol
+  rw [hcell, hv] at hcol
+  simp only [Option.getD_some, Option.some.injEq] at hcol
+  have e : key = storageKey k := hdist key (storageKey k) v' v hkey hv hcol.symm
+  refine ⟨e, ?_, ?_⟩
+  · rw [e]; exact storageKey_ne_self k
+  · intro k' hne e'
+    exact hne (storageKey_injective k' k (e'.symm.trans e))
+
+/-- Non-vacuity: underscore twins and a member-like name in one model, distinct series.  `__dict__` holds `Y` under
+    `_Y`, `_Y` under `__Y`, `size` under `_size`; every column holds its own series, with and without internals. -/
+def twinObj : Obj Nat Nat :=
+  ⟨[0, 1], ["status", "iterations", "Y", "_Y", "size"], ["Y", "_Y", "size"],
+   [("_status", [0, 0]), ("_iterations", [9, 9]), ("_Y", [1, 2]), ("__Y", [3, 4]), ("_size", [5, 6])]⟩
+
+example : (modelTable twinObj.toStore false false true).cols = [("Y", [1, 2]), ("_Y", [3, 4]), ("size", [5, 6])] := by
+  decide
+example : (modelTable twinObj.toStore true false false).cols = [("Y", [1, 2]), ("size", [5, 6]), ("status", [0, 0])] := by
+  decide
+example : NamesOk twinObj.names ∧ (∀ k ∈ twinObj.names, k ∈ twinObj.index) ∧
+    "_Y" ∈ exportNames twinObj.names true ∧ dictGet twinObj.dict (storageKey "_Y") = some [3, 4] := by
+  refine ⟨⟨by decide, by decide, by decide⟩, by decide, by decide, by decide⟩
+/-- `dataframe_cells` itself on a by-name store whose names contain underscore twins and a member-like name. -/
+example : dictGet (modelTable (L := Nat) (α := Nat) ⟨[0, 1], ["status", "iterations", "Y", "_Y", "size"], ["Y", "_Y", "size"],
+      fun k => if k = "Y" then [1, 2] else if k = "_Y" then [3, 4] else if k = "size" then [5, 6] else [0, 0]⟩
+      false false true).cols "_Y" = some [3, 4] := by decide
+
+/-- Python's own attribute lookup (`getattr(self, key)`, `attrLookup`) is NOT `obj[key]`: on the name `_Y` it returns
+    the series of `Y` (the instance `__dict__` entry `_Y` is found before `__getattr__` is asked) — so an export that
+    read through it would put `Y`'s series in the column `_Y`.  The two agree on every name that is not itself a key
+    of `__dict__` (`attrLookup_eq_getItem`). -/
+theorem attrLookup_differs_at_twin :
+    attrLookup twinObj "_Y" = some [1, 2] ∧ getItem twinObj "_Y" = some [3, 4] ∧
+    attrLookup twinObj "Y" = getItem twinObj "Y" := by decide
+
+theorem attrLookup_eq_getItem (o : Obj L α) (k : String) (h : dictGet o.dict k = none) :
+    attrLookup o k = getItem o k := by
+  simp [attrLookup, h]
+
+/-- `VectorContainer.to_dataframe`: the same for every series of the container (`status` / `iterations` of a model
+    included: they are stored under `_status` / `_iterations`). -/
+theorem container_reads_own_series (o : Obj L α) (h : o.index.Nodup) (k : String) (hk : k ∈ o.index) :
+    dictGet (containerTable o.toStore).cols k = some ((dictGet o.dict (storageKey k)).getD []) := by
+  rw [(container_columns o.toStore h).2]
+  have : k ∈ o.toStore.index := hk
+  rw [dictGet_map_mem o.toStore.data _ k this]
+  simp [Obj.toStore, getItem_of_mem o k hk]
+
+example : (containerTable twinObj.toStore).cols =
+    [("status", [0, 0]), ("iterations", [9, 9]), ("Y", [1, 2]), ("_Y", [3, 4]), ("size", [5, 6])] := by decide
+
+theorem nodup_map_storageKey (ks : List String) (h : ks.Nodup) : (ks.map storageKey).Nodup := by
+  induction ks with
+  | nil => simp
+  | cons k ks ih =>
+    rw [List.nodup_cons] at h
+    simp only [List.map_cons, List.nodup_cons, List.mem_map, not_exists, not_and]
+    exact ⟨fun x hx e => h.1 (storageKey_injective x k e ▸ hx), ih h.2⟩
+
+theorem dictGet_map_storageKey {V : Type} (f : String → V) (ks : List String) (k : String) (hk : k ∈ ks) :
+    dictGet (ks.map fun k => (storageKey k, f k)) (storageKey k) = some (f k) := by
+  induction ks with
+  | nil => simp at hk
+  | cons k0 ks ih =>
+    by_cases e : k0 = k
+    · simp [dictGet, e]
+    · have hne : ¬ storageKey k0 = storageKey k := fun x => e (storageKey_injective _ _ x)
+      have : k ∈ ks := by
+        simp only [List.mem_cons] at hk
+        rcases hk with hk | hk
+        · exact absurd hk.symm e
+        · exact hk
+      simp [dictGet, hne, ih this]
+
+/-- The `__dict__` a constructor builds (`Store.toObj`: one `add_variable` per name of `index`) gives every name its
+    own entry: `obj[k]` is the series that was passed for `k` — because `storageKey` is injective, distinct names
+    never overwrite each other, whatever they look like. -/
+theorem toObj_getItem (m : Store L α) (h : m.index.Nodup) (k : String) (hk : k ∈ m.index) :
+    getItem m.toObj k = some (m.data k) := by
+  have hnd : (keys (m.index.map fun k => (storageKey k, m.data k))).Nodup := by
+    have : keys (m.index.map fun k => (storageKey k, m.data k)) = m.index.map storageKey := by
+      simp [keys, Function.comp_def]
+    rw [this]
+    exact nodup_map_storageKey m.index h
+  have hki : k ∈ m.toObj.index := hk
+  rw [getItem_of_mem _ _ hki]
+  show dictGet (dictFromPairs (m.index.map fun k => (storageKey k, m.data k)) []) (storageKey k) = some (m.data k)
+  rw [dictFromPairs_fresh _ _ hnd (by simp)]
+  simpa using dictGet_map_storageKey m.data m.index k hk
+
 /-! ## linker export -/
 
 variable {K : Type} [DecidableEq K]
@@ -261,20 +391,70 @@ theorem linker_tables_count (name : K) (l : Store L α) (subs : List (K × Store
 
 /-! ## from_dataframe -/
 
+/-- The guard of the import round trip: no variable is called like a positional parameter of `__init__` (`self`,
+    `span`; reflected from the signature).  `span` can never be a variable (the constructor raises), `self` CAN
+    (`from_dataframe_false_at_witness`). -/
+def CtorNamesOk (names : List String) : Prop := ∀ k ∈ names, Fsic.Generated.modelCtorPositional.contains k = false
+
+instance (names : List String) : Decidable (CtorNamesOk names) := by unfold CtorNamesOk; infer_instance
+
+theorem no_kwargsClash (m : Store L α) (s i incl : Bool) (h : NamesOk m.names) (hkw : CtorNamesOk m.names) :
+    kwargsClash (modelTable m s i incl).cols = false := by
+  have hcols := dataframe_columns m s i incl h
+  unfold kwargsClash
+  rw [Bool.eq_false_iff]
+  intro hany
+  rw [List.any_eq_true] at hany
+  obtain ⟨c, hc, hbad⟩ := hany
+  have hmem : c.1 ∈ modelColumns m.names incl s i := by
+    rw [← hcols]; exact List.mem_map_of_mem hc
+  unfold modelColumns at hmem
+  simp only [List.mem_append] at hmem
+  rcases hmem with (hmem | hmem) | hmem
+  · have := hkw c.1 (exportNames_sub _ _ _ hmem)
+    rw [this] at hbad; exact Bool.noConfusion hbad
+  · cases s <;> simp at hmem
+    rw [hmem] at hbad; revert hbad; decide
+  · cases i <;> simp at hmem
+    rw [hmem] at hbad; revert hbad; decide
+
+/-- The full statement ("from the data columns of ANY model") is false: a model with a variable called `self` (the
+    parser accepts `self = X`) exports a column `self`, and `cls(index, **{'self': …})` raises TypeError — the
+    guard `CtorNamesOk` of `from_dataframe_roundtrip` excludes exactly these names.
+    Known finding `from-dataframe-self-column-typeerror`. -/
+theorem from_dataframe_false_at_witness :
+    ∃ (m : Store Nat Nat), NamesOk m.names ∧
+      fromTable (fun x => x) ⟨0, 7, 8⟩ m.names (modelTable m false false true) = none :=
+  ⟨⟨[0, 1], ["status", "iterations", "self", "X"], ["self", "X"], fun k => if k = "X" then [1, 2] else [3, 4]⟩,
+   ⟨by decide, by decide, by decide⟩, by decide⟩
+
+/-- The keyword-only parameter `default_value` is really one (reflected signature), and a column with that label
+    fills the variables that have no column: here `_h` (not exported) receives the `default_value` column, `Y` and
+    `default_value` their own. -/
+example : Fsic.Generated.modelCtorKeywordOnly.contains defaultValueParam = true := by decide
+example : ((fromTable (L := Nat) (fun x : Nat => x) ⟨0, 7, 8⟩ ["Y", "default_value", "_h"]
+      (modelTable ⟨[3, 4], [], ["Y", "default_value", "_h"],
+        fun k => if k = "Y" then [1, 2] else if k = "_h" then [9, 9] else [5, 6]⟩ false false false)).map
+      (fun m' => (m'.data "Y", m'.data "default_value", m'.data "_h"))) = some ([1, 2], [5, 6], [5, 6]) := by decide
+
+
 /-- **from_dataframe_roundtrip.**  Build a model of a class with variables `NAMES` from the export of `m` (any
     flags: `status` / `iterations` columns are ignored by the constructor, so this covers "from the data columns"
     = `dataColumns`, see `dataColumns_modelTable`).  The constructor succeeds, the span is `m`'s span, the names are
     `NAMES`, and every exported variable of the class holds the cast of the original series. -/
 theorem from_dataframe_roundtrip (m : Store L α) (cast : α → α) (dflt : Defaults α) (NAMES : List String)
-    (s i incl : Bool) (h : NamesOk m.names) (hN : NAMES.Nodup) (hsub : ∀ k ∈ NAMES, k ∈ m.names) :
+    (s i incl : Bool) (h : NamesOk m.names) (hN : NAMES.Nodup) (hsub : ∀ k ∈ NAMES, k ∈ m.names)
+    (hkw : CtorNamesOk m.names) :
     ∃ m', fromTable cast dflt NAMES (modelTable m s i incl) = some m' ∧ m'.span = m.span ∧ m'.names = NAMES ∧
       (∀ k ∈ NAMES, k ∈ exportNames m.names incl → m'.data k = (m.data k).map cast) ∧
       m'.data "status" = List.replicate m.span.length dflt.status ∧
       m'.data "iterations" = List.replicate m.span.length dflt.iterations := by
   have hs : "status" ∉ NAMES := fun x => h.noStatus (hsub _ x)
   have hi : "iterations" ∉ NAMES := fun x => h.noIterations (hsub _ x)
-  have hc : NAMES.Nodup ∧ "status" ∉ NAMES ∧ "iterations" ∉ NAMES := ⟨hN, hs, hi⟩
-  simp only [fromTable, hc, if_true]
+  have hc : NAMES.Nodup ∧ "status" ∉ NAMES ∧ "iterations" ∉ NAMES ∧ kwargsClash (modelTable m s i incl).cols = false :=
+    ⟨hN, hs, hi, no_kwargsClash m s i incl h hkw⟩
+  unfold fromTable
+  rw [if_pos hc]
   refine ⟨_, rfl, rfl, rfl, ?_, ?_, ?_⟩
   · intro k hk hex
     have h1 : k ≠ "status" := fun e => hs (e ▸ hk)
@@ -291,10 +471,10 @@ theorem from_dataframe_roundtrip (m : Store L α) (cast : α → α) (dflt : Def
 /-- For a model whose cells the cast leaves alone (a float model read back as float): every value is reproduced. -/
 theorem from_dataframe_roundtrip_id (m : Store L α) (cast : α → α) (dflt : Defaults α) (NAMES : List String)
     (s i incl : Bool) (h : NamesOk m.names) (hN : NAMES.Nodup) (hsub : ∀ k ∈ NAMES, k ∈ m.names)
-    (hcast : ∀ k ∈ NAMES, ∀ x ∈ m.data k, cast x = x) :
+    (hkw : CtorNamesOk m.names) (hcast : ∀ k ∈ NAMES, ∀ x ∈ m.data k, cast x = x) :
     ∃ m', fromTable cast dflt NAMES (modelTable m s i incl) = some m' ∧ m'.span = m.span ∧
       ∀ k ∈ NAMES, k ∈ exportNames m.names incl → m'.data k = m.data k := by
-  obtain ⟨m', h1, h2, _, h4, _⟩ := from_dataframe_roundtrip m cast dflt NAMES s i incl h hN hsub
+  obtain ⟨m', h1, h2, _, h4, _⟩ := from_dataframe_roundtrip m cast dflt NAMES s i incl h hN hsub hkw
   refine ⟨m', h1, h2, ?_⟩
   intro k hk hex
   rw [h4 k hk hex]
@@ -304,6 +484,42 @@ example : (fromTable (L := Nat) (fun x : Nat => x) ⟨0, 7, 8⟩ ["Y", "C"]
       (modelTable ⟨[3, 4], [], ["Y", "C", "_x"], fun k => if k = "Y" then [1, 2] else [5, 6]⟩ true true false)).map
       (fun m' => (m'.span, m'.data "Y", m'.data "C", m'.data "status")) = some ([3, 4], [1, 2], [5, 6], [7, 7]) := by
   decide
+
+/-- **from_dataframe_reads_own_series.**  The import round trip down to `__dict__`: export any instance `o` (columns
+    labelled by NAME), build the class from the table; in the new instance's `__dict__` the entry under
+    `storageKey k` is the cast of the entry under `storageKey k` of the original — for every class variable that was
+    exported, also when the columns are called `_Y`, `size`, … -/
+theorem from_dataframe_reads_own_series (o : Obj L α) (cast : α → α) (dflt : Defaults α) (NAMES : List String)
+    (s i incl : Bool) (h : NamesOk o.names) (hN : NAMES.Nodup) (hsub : ∀ k ∈ NAMES, k ∈ o.names)
+    (hidx : ∀ k ∈ o.names, k ∈ o.index) (hkw : CtorNamesOk o.names) :
+    ∃ m', fromTable cast dflt NAMES (modelTable o.toStore s i incl) = some m' ∧ m'.span = o.span ∧
+      ∀ k ∈ NAMES, k ∈ exportNames o.names incl →
+        dictGet m'.toObj.dict (storageKey k) = some (((dictGet o.dict (storageKey k)).getD []).map cast) := by
+  have hs : "status" ∉ NAMES := fun x => h.noStatus (hsub _ x)
+  have hi : "iterations" ∉ NAMES := fun x => h.noIterations (hsub _ x)
+  obtain ⟨m', h1, h2, h3, h4, _⟩ := from_dataframe_roundtrip o.toStore cast dflt NAMES s i incl h hN hsub hkw
+  refine ⟨m', h1, h2, ?_⟩
+  intro k hk hex
+  have hidx' : m'.index = "status" :: "iterations" :: NAMES := by
+    have hc : NAMES.Nodup ∧ "status" ∉ NAMES ∧ "iterations" ∉ NAMES ∧
+        kwargsClash (modelTable o.toStore s i incl).cols = false := ⟨hN, hs, hi, no_kwargsClash o.toStore s i incl h hkw⟩
+    unfold fromTable at h1
+    rw [if_pos hc] at h1
+    cases h1
+    rfl
+  have hnd : m'.index.Nodup := by
+    rw [hidx']
+    simp [List.nodup_cons, hs, hi, hN]
+  have hki : k ∈ m'.index := by rw [hidx']; simp [hk]
+  have := toObj_getItem m' hnd k hki
+  rw [getItem_of_mem _ _ (show k ∈ m'.toObj.index from hki)] at this
+  rw [this, h4 k hk hex]
+  have hko : k ∈ o.index := hidx k (hsub k hk)
+  simp [Obj.toStore, getItem_of_mem o k hko]
+
+example : ((fromTable (L := Nat) (fun x : Nat => x) ⟨0, 7, 8⟩ ["Y", "_Y", "size"]
+      (modelTable twinObj.toStore false false true)).map (fun m' => m'.toObj.dict)) =
+    some [("_status", [7, 7]), ("_iterations", [8, 8]), ("_Y", [1, 2]), ("__Y", [3, 4]), ("_size", [5, 6])] := by decide
 
 /-! ## symbols_to_dataframe / dataframe_to_symbols -/
 
